@@ -90,6 +90,36 @@ theorem decryptAnswer_mismatch_is_error (P : Prims) (data key iv : Bytes) (isNil
     obtain ⟨_, i, hi1, _, hi3, hi4, _⟩ := (guess_some_iff P _ x).mp hg
     exact absurd (hi3 ▸ hi4) (hm i hi1)
 
+/-- `paddedLen16` (translated from Go on every run): the least multiple of 16 that is ≥ l. -/
+theorem paddedLen16_spec (l : Nat) : l ≤ paddedLen16 l ∧ paddedLen16 l < l + 16 ∧ paddedLen16 l % 16 = 0 :=
+  paddedLen16_bounds l
+
+/-- **Genuine answers are recovered.**  For 32-byte key and IV, what `EncryptExchangeAnswer` produced
+decrypts without error to data `x` that begins with the answer, is followed by `k < 16` of the random
+padding bytes, and has the answer's SHA-1.  (`k = 0`, i.e. `x = answer`, unless a longer candidate
+collides under SHA-1 — see the corollary.) -/
+theorem decrypt_encrypt_answer (P : Prims) (hP : LawfulPrims P) (rnd answer key iv c : Bytes) (isNil : Bool)
+    (hk : key.length = 32) (hiv : iv.length = 32)
+    (he : encryptAnswer P rnd answer key iv = .ok c) :
+    ∃ x k, decryptAnswer P c key iv isNil = .ok (some x) ∧
+      x = answer ++ rnd.take k ∧ k < 16 ∧ P.sha1 x = P.sha1 answer := by
+  have h := decrypt_encrypt_answer' P hP rnd answer key iv c isNil hk hiv he
+  have hv : Facts.C11.nilTestVar = Facts.C11.guessResultVar := rfl
+  unfold decryptAnswer
+  rw [hv]
+  exact h
+
+/-- Under the explicit hypothesis that no proper extension of the answer by its own padding bytes
+has the same SHA-1 (collision resistance, not provable), the answer itself comes back. -/
+theorem decrypt_encrypt_answer_exact (P : Prims) (hP : LawfulPrims P) (rnd answer key iv c : Bytes) (isNil : Bool)
+    (hk : key.length = 32) (hiv : iv.length = 32)
+    (he : encryptAnswer P rnd answer key iv = .ok c)
+    (NoPaddingCollision : ∀ k, k < 16 → P.sha1 (answer ++ rnd.take k) = P.sha1 answer → rnd.take k = []) :
+    decryptAnswer P c key iv isNil = .ok (some answer) := by
+  obtain ⟨x, k, h1, h2, h3, h4⟩ := decrypt_encrypt_answer P hP rnd answer key iv c isNil hk hiv he
+  rw [h1, h2, NoPaddingCollision k h3 (h2 ▸ h4)]
+  simp
+
 /-- The unrepaired code (nil test on the *input*): a non-nil block of `0x01` bytes under the zero
 key and IV was reported as success with nil data.  (Toy primitives; the implementation-level witness
 is replayed by the harness.) -/
